@@ -25,7 +25,7 @@ func vmConstOf(p *packages.Package, name string) constant.Value {
 	return c.Val()
 }
 
-func constInt(p *packages.Package, name string) int64 {
+func vmConstInt(p *packages.Package, name string) int64 {
 	v := vmConstOf(p, name)
 	x, ok := constant.Int64Val(constant.ToInt(v))
 	if !ok {
@@ -202,13 +202,13 @@ func init() {
 		fmt.Fprintf(b, "(* internal/runtime/vm.go: numbering of callStatus *)\n")
 		var vals []int64
 		for _, n := range names {
-			v := constInt(rt, n)
+			v := vmConstInt(rt, n)
 			vals = append(vals, v)
 			fmt.Fprintf(b, "Definition callStatus_%s : N := %d.\n", n, v)
 		}
 		fmt.Fprintf(b, "Definition callStatus_values : list N := %s.\n\n", coqNList(vals))
-		fmt.Fprintf(b, "(* internal/runtime/vm.go *)\nDefinition stackSize : N := %d.\n", constInt(rt, "stackSize"))
-		fmt.Fprintf(b, "(* internal/compiler/builder.go *)\nDefinition maxRegistersCount : N := %d.\n\n", constInt(co, "maxRegistersCount"))
+		fmt.Fprintf(b, "(* internal/runtime/vm.go *)\nDefinition stackSize : N := %d.\n", vmConstInt(rt, "stackSize"))
+		fmt.Fprintf(b, "(* internal/compiler/builder.go *)\nDefinition maxRegistersCount : N := %d.\n\n", vmConstInt(co, "maxRegistersCount"))
 		fmt.Fprintf(b, "(* VM.startGoroutine: copy(nvm.regs.K, vm.regs.K[vm.fp[i]+Addr(off.F) : vm.fp[i]+H]), H = 0 when the slice has no high bound;\n   one entry (i, index of F in Op,A,B,C, H, destination is the whole register file) per register kind *)\n")
 		fieldIdx := map[string]int64{"Op": 0, "A": 1, "B": 2, "C": 3}
 		fmt.Fprintf(b, "Definition spawn_windows : list (N * N * N * bool) := [")
